@@ -47,6 +47,7 @@ func c09Alphabet(t int64) []BOp {
 		{K: "setcur", N: t},
 		{K: "setcur", N: t + 1},
 		{K: "ewmasetcur", N: t / 2, D: 5000},
+		{K: "ewmasetcur", N: t, D: 7},
 		{K: "settotal", N: -1, F: false},
 		{K: "settotal", N: t + 5, F: false},
 		{K: "settotal", N: 7, F: true},
@@ -262,7 +263,7 @@ func runC09(job common.Job, em *emitter) {
 		switch job.Part {
 		case "exh3", "exh4":
 			// exhaustive over sequences of length L from each initial total; the
-			// first letter is split over the chunks (20 chunks)
+			// first letter is split over the chunks (one chunk per letter)
 			L := 3
 			if job.Part == "exh4" {
 				L = 4
